@@ -10,6 +10,8 @@ TupimageTerminal always opens /dev/tty, so the assign_id histories run in a `pty
 temporary id_database and config="DEFAULT"; the child runs the same history runner with its own driver.
 `objects_history`: one child hosts SEVERAL terminal objects (own database and own configured space / subspace each, through
 different configuration channels), asked in turns - what one object was configured with must not reach another.
+`cfgint_history`: the configured id_space as a native integer through every layer that can carry one (refusals counted).
+`kept_history`: kept ImageInstance objects, with or WITHOUT an id, through upload / upload_and_display with per-call spaces.
 """
 from __future__ import annotations
 
@@ -213,6 +215,49 @@ def objects_history(rng, vias, subs, max_ids=1024, n_ops=None) -> dict:
             "create": rng.choice(["upfront", "lazy"]), "objects": objects, "ops": [dict(o, n=i) for i, o in enumerate(ops)]}
 
 
+# what an INTEGER names as an ID space, by the documented convention of IDSpace.from_string applied to its decimal text
+INT_NAMES = {8: (8, False), 256: (8, False), 16: (8, True), 24: (24, False), 32: (24, True)}
+# every configuration layer that can carry a native integer (the environment is text only)
+INT_VIAS = ["kwargs", "overrides", "property", "cfgobj", "toml", "cfgdict", "cfgkw", "tomlstr"]
+NEAR = [(30, 40), (100, 200), (1, 2), (0, 2), (255, 256), (0, 256), (1, 256), (5, 9), (40, 100), (200, 256)]
+
+
+def cfgint_history(rng, pairs, subs, max_ids=1024) -> dict:
+    """the configured default id_space given as a NATIVE INTEGER (8, 16, 24, 32, 256) through every layer that can carry one: the
+    constructor keyword, config_overrides, the `id_space` property (assigned after ids were already handed out under another
+    configured space), a TupimageConfig built in code, one told through override_from_dict / override(**kw) /
+    override_from_toml_string, and a config file with a native toml integer. `pairs` = [(layer, int)], one fresh terminal (own
+    database) per pair in one pty child. A layer may REFUSE the integer (ValueError / TypeError: no terminal, or the property keeps
+    what it had) - that is counted, and whatever was configured before stays the space that applies. If the layer accepts it, ids
+    are requested WITHOUT a per-call id_space (the subspace configured, per call, or default) and every id must be a member of
+    the space the integer NAMES (IDSpace.from_string of its decimal text: 8 -> 8bit, 16 -> 16bit, 24 -> 24bit, 32 -> 32bit,
+    256 -> 8bit) and of the subspace that applies. Oracle: Spec.member (`spec_member`)."""
+    layers = []
+    for via, n in pairs:
+        text_only = via in ("toml", "tomlstr")
+        tc = {"via": via, "id_space": {"t": "int", "v": n}}
+        su = (0, 256)
+        if rng.random() < 0.6:
+            su = rng.choice(subs)
+            tc["id_subspace"] = _sub_form(rng, su, allow_obj=not text_only)
+        layer = {"tconfig": tc, "sp": list(INT_NAMES[n]), "su": list(su)}
+        if via == "property":
+            bsp = rng.choice([s_ for s_ in SPACES if tuple(s_) != INT_NAMES[n]])
+            layer["before"] = {"id_space": _space_form(rng, bsp, allow_int=False), "sp": [bsp[0], bool(bsp[1])]}
+        reqs = []
+        for k in range(rng.randint(2, 4)):
+            q = {"d": f":v:{rng.choice(DESCS[14:30])}{k}", "sua": {"t": "none"}, "su": list(su)}
+            if rng.random() < 0.35:
+                qsu = rng.choice(subs)
+                f = _sub_form(rng, qsu)
+                q["sua"], q["su"] = f, list(qsu)
+            reqs.append(q)
+        layer["reqs"] = reqs
+        layers.append(layer)
+    return {"via": "terminal", "cfgint": True, "name": "configured-int-space", "profile": "cfgint", "max_ids": max_ids,
+            "seed": rng.randrange(1 << 30), "layers": layers, "ops": []}
+
+
 def outside_history(rng, subs_by_space, max_ids) -> dict:
     """a description already bound to an id just OUTSIDE the requested subspace (same space, subspace byte
     begin-1 / end / 0) must not be handed out for the request: force-set such ids, then request."""
@@ -283,6 +328,8 @@ def _child(case: dict, out_path: str):
             res.update(_run_objects(TupimageTerminal, drv, case, d))
         elif case.get("kept"):
             res.update(_run_kept(TupimageTerminal, drv, case, d))
+        elif case.get("cfgint"):
+            res.update(_run_cfgint(TupimageTerminal, drv, case, d))
         else:
             term = _make_terminal(TupimageTerminal, case, d)
             fd = run_history(drv, case, terminal=term)
@@ -373,6 +420,73 @@ def _run_objects(TupimageTerminal, drv, case: dict, d: str) -> dict:
     return out
 
 
+def _run_cfgint(TupimageTerminal, drv, case: dict, d: str) -> dict:
+    """see cfgint_history: one fresh terminal per layer; a refused integer is counted and leaves what was configured before"""
+    from tupimage import id_manager as im
+    out = {"mismatches": [], "violations": [], "stats": {}}
+
+    def count(k, by=1):
+        out["stats"][k] = out["stats"].get(k, 0) + by
+
+    def judge(li, layer, sp, su, iid, how):
+        count("ids-judged-configured-int-space")
+        r = drv.ask(f"spec_member {sp[0]} {1 if sp[1] else 0} {su[0]} {su[1]} {iid}")
+        if r not in ("1", "0"):
+            raise RuntimeError(f"driver answered {r!r} to spec_member")
+        if r == "0":
+            out["violations"].append(("id-not-member-of-requested-subspace", f"layer{li}:{layer['tconfig']['via']}",
+                                      {"id": iid, "space": list(sp), "subspace": list(su), "how": how, "configured": layer["tconfig"]}))
+
+    terms = []
+    try:
+        for li, layer in enumerate(case["layers"]):
+            for name in [name for name in os.environ if name.startswith("TUPIMAGE")]:
+                del os.environ[name]
+            tc = layer["tconfig"]
+            via, n = tc["via"], tc["id_space"]["v"]
+            dk = os.path.join(d, f"layer{li}")
+            os.makedirs(dk, exist_ok=True)
+            sp = layer["sp"]
+            term = None
+            try:
+                if via == "property":
+                    # ids are handed out under another configured space first; then the integer is assigned to the property
+                    before = layer.get("before") or {}
+                    pre = {k: v for k, v in tc.items() if k == "id_subspace"}
+                    if "id_space" in before:
+                        pre["id_space"] = before["id_space"]
+                    term = _make_terminal(TupimageTerminal, dict(case, tconfig=dict(pre, via="kwargs")), dk)
+                    terms.append(term)
+                    bsp = before.get("sp", [24, True])
+                    inst = term.assign_id(f":v:before-{li}", cols=1, rows=1)
+                    judge(li, layer, bsp, layer["su"], inst.id, "assign_id before the integer was assigned to the property")
+                    sp = bsp
+                    term.id_space = n
+                    sp = layer["sp"]
+                else:
+                    term = _make_terminal(TupimageTerminal, dict(case, tconfig=tc), dk)
+                    terms.append(term)
+                count(f"config-int:{via}:accepted")
+                count(f"config-int-accepted:{n}")
+            except (ValueError, TypeError) as ex:
+                count(f"config-int:{via}:refused:{type(ex).__name__}")
+                if term is None:
+                    continue          # no terminal: no id is handed out
+            for q in layer["reqs"]:
+                su_arg = None if q["sua"]["t"] == "none" else dbutil._cfg_value(im, "id_subspace", q["sua"])
+                count("config-int-request-subspace:" + q["sua"]["t"])
+                inst = term.assign_id(q["d"], cols=1, rows=1, id_subspace=su_arg)
+                judge(li, layer, sp, q["su"], inst.id, f"assign_id without a per-call id_space, id_space={n!r} configured via {via}")
+                count("op:get")
+    finally:
+        for t in terms:
+            try:
+                t.id_manager.close()
+            except Exception:          # noqa: BLE001
+                pass
+    return out
+
+
 def _run_kept(TupimageTerminal, drv, case: dict, d: str) -> dict:
     """KEPT ImageInstance objects on one terminal with a configured (mostly tiny) subspace: an instance is obtained, its id is
     then taken away (deleted, force-bound to something else, or recycled by further requests), and the instance is used again
@@ -389,14 +503,64 @@ def _run_kept(TupimageTerminal, drv, case: dict, d: str) -> dict:
     def count(k):
         out["stats"][k] = out["stats"].get(k, 0) + 1
 
-    def judge(idx, step, iid, what):
+    configured = ([cb, bool(u3)], [b, e])
+
+    def judge(idx, step, iid, what, applies=None):
+        """`applies` = (space, subspace) of the request that handed the id out (default: the configured ones)"""
+        (jcb, ju3), (jb, je) = applies or configured
         count("ids-judged-kept-instance")
-        r = drv.ask(f"spec_member {cb} {1 if u3 else 0} {b} {e} {iid}")
+        if not isinstance(iid, int) or isinstance(iid, bool):
+            out["violations"].append(("id-not-member-of-requested-subspace", f"{idx}:{step[0]}",
+                                      {"id": repr(iid), "space": [jcb, ju3], "subspace": [jb, je], "how": what + " (not a number)", "step": step}))
+            return
+        r = drv.ask(f"spec_member {jcb} {1 if ju3 else 0} {jb} {je} {iid}")
         if r not in ("1", "0"):
             raise RuntimeError(f"driver answered {r!r} to spec_member")
         if r == "0":
             out["violations"].append(("id-not-member-of-requested-subspace", f"{idx}:{step[0]}",
-                                      {"id": iid, "space": [cb, u3], "subspace": [b, e], "how": what, "step": step}))
+                                      {"id": iid, "space": [jcb, ju3], "subspace": [jb, je], "how": what, "step": step}))
+
+    from tupimage import id_manager as im_
+    from tupimage.tupimage_terminal import ImageInstance
+    # origin[name]: the (space, subspace) of the request that handed out the id the instance carries; None = the instance has NO id
+    # (never assigned, or its id was set to None / 0): the library may refuse to upload it, or hand out an id for THAT call
+    origin: dict = {}
+
+    def use(idx, step, entry, spa=None, sua=None, applies=None):
+        """upload / upload_and_display of a kept instance, optionally with a per-call id_space / id_subspace"""
+        nm = step[1]
+        inst = insts[nm]
+        kw = {}
+        if spa is not None and spa["t"] != "none":
+            kw["id_space"] = dbutil._cfg_value(im_, "id_space", spa)
+        if sua is not None and sua["t"] != "none":
+            kw["id_subspace"] = dbutil._cfg_value(im_, "id_subspace", sua)
+        had_id = origin.get(nm) is not None
+        if not had_id:
+            count(f"kept-no-id-instance:{entry}:space-{(spa or {'t': 'none'})['t']}:subspace-{(sua or {'t': 'none'})['t']}")
+        try:
+            res = term.upload(inst, **kw) if entry == "upload" else term.upload_and_display(inst, **kw)
+        except (ValueError, TypeError) as ex:
+            if had_id and isinstance(ex, TypeError):
+                raise
+            if not had_id:
+                count("kept-no-id-instance-refused:" + type(ex).__name__)
+            raise ValueError(str(ex)) from ex
+        if nm in forced:
+            return
+        # an instance that carried an id keeps the space / subspace of the request that handed that id out; one without an id was
+        # given an id by THIS call: the per-call space / subspace if given, else the configured ones
+        app = origin[nm] if had_id else (applies or configured)
+        if not had_id:
+            count("kept-no-id-instance-got-an-id")
+            if insts[nm].id:          # the kept object itself carries the new id from now on
+                origin[nm] = app
+        if entry == "upload":
+            judge(idx, step, res.id, "upload(kept instance) returned" + ("" if had_id else " for an instance without an id"), app)
+            if had_id or insts[nm].id:
+                judge(idx, step, insts[nm].id, "kept instance after upload()", app)
+        else:
+            judge(idx, step, res.image_id, "upload_and_display(kept instance) placeholder" + ("" if had_id else " for an instance without an id"), app)
 
     def img(k):
         im_ = Image.new("RGB", (3, 2))
@@ -412,27 +576,39 @@ def _run_kept(TupimageTerminal, drv, case: dict, d: str) -> dict:
             try:
                 if op == "assign":
                     insts[step[1]] = term.assign_id(img(step[2]))
+                    origin[step[1]] = configured
                     judge(idx, step, insts[step[1]].id, "assign_id")
                 elif op == "force":       # the caller picks the id: not judged, and neither is later use of that instance
                     insts[step[1]] = term.assign_id(img(step[2]), force_id=step[3])
                     forced.add(step[1])
-                elif op == "del" and step[1] in insts:
+                    origin[step[1]] = configured
+                elif op == "noid":        # an instance that never had an id: ["noid", name, k, "build"|"direct", None|0]
+                    bi = term.build_image_instance(img(step[2]), id=step[4], cols=1, rows=1)
+                    if step[3] == "direct":
+                        bi = ImageInstance(path=bi.path, mtime=bi.mtime, cols=bi.cols, rows=bi.rows, id=step[4], image=bi.image)
+                    insts[step[1]] = bi
+                    origin[step[1]] = None
+                    forced.discard(step[1])
+                elif op == "strip" and step[1] in insts:      # the id of a kept instance is taken off the object: ["strip", name, None|0]
+                    insts[step[1]].id = step[2]
+                    origin[step[1]] = None
+                    forced.discard(step[1])
+                elif op == "clone" and step[2] in insts:      # ["clone", name, source, None|0]: a copy of a kept instance without its id
+                    insts[step[1]] = insts[step[2]].clone_with(id=step[3])
+                    origin[step[1]] = None
+                    forced.discard(step[1])
+                elif op == "uploadx" and step[1] in insts:    # ["uploadx", name, "upload"|"display", space form, subspace form, space, subspace]
+                    use(idx, step, step[2], step[3], step[4], (step[5], step[6]))
+                elif op == "del" and step[1] in insts and insts[step[1]].id:
                     term.id_manager.del_id(insts[step[1]].id)
-                elif op == "set" and step[1] in insts:
+                elif op == "set" and step[1] in insts and insts[step[1]].id:
                     term.id_manager.set_id(insts[step[1]].id, step[2])
                 elif op == "fill":
                     for j in range(step[1]):
                         r = term.assign_id(img(10_000 + 100 * idx + j))
                         judge(idx, step, r.id, "assign_id")
-                elif op == "upload" and step[1] in insts:
-                    r = term.upload(insts[step[1]])
-                    if step[1] not in forced:
-                        judge(idx, step, r.id, "upload(kept instance) returned")
-                        judge(idx, step, insts[step[1]].id, "kept instance after upload()")
-                elif op == "display" and step[1] in insts:
-                    ph = term.upload_and_display(insts[step[1]])
-                    if step[1] not in forced:
-                        judge(idx, step, ph.image_id, "upload_and_display(kept instance) placeholder")
+                elif op in ("upload", "display") and step[1] in insts:
+                    use(idx, step, op)
             except (ValueError, RuntimeError, FileNotFoundError) as ex:
                 count("kept-exc:" + type(ex).__name__ + ":" + str(ex)[:60])
     finally:
@@ -440,32 +616,89 @@ def _run_kept(TupimageTerminal, drv, case: dict, d: str) -> dict:
     return out
 
 
-def kept_history(rng, sp, su, max_ids) -> dict:
+def _call_forms(rng, sp, su, subs):
+    """per-call id_space / id_subspace of an upload: each either left out or given (mostly ANOTHER space / subspace than the
+    configured `sp` / `su`) as object, text or int; returns the two forms and the space / subspace that APPLY to the call"""
+    spa = sua = {"t": "none"}
+    asp, asu = sp, su
+    r = rng.random()
+    if r < 0.8:
+        asp = rng.choice([s_ for s_ in SPACES if tuple(s_) != tuple(sp)]) if rng.random() < 0.85 else sp
+        spa = _space_form(rng, asp)
+    if r >= 0.8 or rng.random() < 0.6:
+        asu = rng.choice([u for u in subs if tuple(u) != tuple(su)]) if rng.random() < 0.85 else su
+        sua = _sub_form(rng, asu)
+    return spa, sua, [asp[0], bool(asp[1])], list(asu)
+
+
+def kept_history(rng, sp, su, max_ids, subs=None) -> dict:
+    """see _run_kept. Besides kept instances whose id is taken away in the DATABASE, instances WITHOUT an id: built with
+    build_image_instance(id=None / 0) or ImageInstance(...) directly, a clone of a kept one with id=None / 0, or a kept one whose
+    `.id` was set to None / 0 - passed to upload / upload_and_display with and without a per-call id_space / id_subspace (object,
+    text, int) that mostly differ from the configured ones. The library may refuse such a call (counted); an id it hands out
+    must be a member of the space and subspace that apply to the call."""
+    subs = subs or NEAR
     names = [f"i{j}" for j in range(rng.randint(1, 3))]
     steps = []
     k = 0
     for nm in names:
         k += 1
         steps.append(["assign", nm, k])
+    noid = []
+
+    def new_noid():
+        nonlocal k
+        k += 1
+        nm = f"u{len(noid)}"
+        r = rng.random()
+        if r < 0.5 or not names:
+            steps.append(["noid", nm, k + 200, rng.choice(["build", "direct"]), rng.choice([None, 0])])
+        elif r < 0.75:
+            steps.append(["clone", nm, rng.choice(names), rng.choice([None, 0])])
+        else:
+            nm = rng.choice(names)
+            steps.append(["strip", nm, rng.choice([None, 0])])
+        if nm not in noid:
+            noid.append(nm)
+        if nm not in names:
+            names.append(nm)
+        return nm
+
+    def call(nm):
+        if rng.random() < 0.8:
+            spa, sua, asp, asu = _call_forms(rng, sp, su, subs)
+            steps.append(["uploadx", nm, rng.choice(["upload", "display"]), spa, sua, asp, asu])
+        else:
+            steps.append([rng.choice(["upload", "display"]), nm])
+
+    call(new_noid())
     for _ in range(rng.randint(2, 6)):
         nm = rng.choice(names)
         r = rng.random()
-        if r < 0.3:
+        if r < 0.25:
             steps.append(["del", nm])
-        elif r < 0.55:
+        elif r < 0.45:
             steps.append(["set", nm, f"other-{rng.randrange(1000)}"])
-        elif r < 0.8:
+        elif r < 0.65:
             steps.append(["fill", rng.choice([1, 2, 3, 6])])
+        elif r < 0.8:
+            call(new_noid())
         else:
             k += 1
             steps.append(["assign", nm + "b", k + 50])
             names.append(nm + "b")
-        steps.append([rng.choice(["upload", "upload", "display"]), rng.choice(names)])
+        if rng.random() < 0.3:
+            call(rng.choice(names))
+        else:
+            steps.append([rng.choice(["upload", "upload", "display"]), rng.choice(names)])
     for nm in names:
-        steps.append([rng.choice(["upload", "display"]), nm])
+        if nm in noid or rng.random() < 0.25:
+            call(nm)
+        else:
+            steps.append([rng.choice(["upload", "display"]), nm])
     tc = {"via": rng.choice(CFG_VIAS), "id_space": _space_form(rng, sp, allow_int=False), "id_subspace": _sub_form(rng, su)}
-    return {"via": "terminal", "kept": True, "name": "kept-instance", "sp": list(sp), "su": list(su), "max_ids": max_ids, "seed": rng.randrange(1 << 30),
-            "tconfig": tc, "steps": steps, "ops": []}
+    return {"via": "terminal", "kept": True, "name": "kept-instance", "profile": "kept", "sp": list(sp), "su": list(su), "max_ids": max_ids,
+            "seed": rng.randrange(1 << 30), "tconfig": tc, "steps": steps, "ops": []}
 
 
 def _make_terminal(TupimageTerminal, case: dict, d: str):
@@ -489,7 +722,7 @@ def _make_terminal(TupimageTerminal, case: dict, d: str):
         path = os.path.join(d, "config.toml")
         with open(path, "w") as f:
             for k, v in vals.items():
-                f.write(f'{k} = "{v}"\n')
+                f.write(_toml_line(k, v))
         return TupimageTerminal(config=path, **base)
     if via == "property":
         term = TupimageTerminal(config="DEFAULT", **base)
@@ -499,7 +732,22 @@ def _make_terminal(TupimageTerminal, case: dict, d: str):
     if via == "cfgobj":
         # a TupimageConfig built in code keeps whatever it was given (the dataclass does not normalise)
         return TupimageTerminal(config=TupimageConfig(**vals), **base)
+    if via in ("cfgdict", "cfgkw", "tomlstr"):
+        # a TupimageConfig object that was told the values through its own override methods, then handed to the terminal
+        cfg = TupimageConfig()
+        if via == "cfgdict":
+            cfg.override_from_dict(dict(vals))
+        elif via == "cfgkw":
+            cfg.override(**vals)
+        else:
+            cfg.override_from_toml_string("".join(_toml_line(k, v) for k, v in vals.items()))
+        return TupimageTerminal(config=cfg, **base)
     raise ValueError(via)
+
+
+def _toml_line(k, v) -> str:
+    """a toml assignment: text quoted, an integer as a native toml integer"""
+    return f"{k} = {v}\n" if type(v) is int else f'{k} = "{v}"\n'
 
 
 def run_in_pty(case: dict) -> dict:
@@ -568,13 +816,21 @@ def cases(ctx: Ctx):
     bsubs = boundary_subs()
     # 0. several terminal objects in ONE process, each configured through its own channel with its own space / subspace: every ordered
     #    pair of channels (earlier object -> later object); first, because it is the only family with more than one object per process
-    near = [(30, 40), (100, 200), (1, 2), (0, 2), (255, 256), (0, 256), (1, 256), (5, 9), (40, 100), (200, 256)]
+    near = list(NEAR)
+    # 0a. the configured id_space as a native INTEGER through every layer that can carry one: every (layer, integer) pair, one fresh
+    #     terminal each (short: a handful of requests per terminal), a refusal by the layer counted
+    for _ in range(1 if quick else 4):
+        pairs = [(via, n) for via in INT_VIAS for n in INT_NAMES]
+        rng.shuffle(pairs)
+        for i in range(0, len(pairs), 8):
+            yield cfgint_history(rng, pairs[i:i + 8], near + rng.sample(subs, 4), rng.choice([1024, 1024, 2]))
     for vias in channel_sequences(rng, 10 if quick else 60):
         yield objects_history(rng, vias, near + rng.sample(subs, 4), rng.choice([1024, 1024, 2]))
-    # 0b. kept ImageInstance objects whose id was taken away, used again on a terminal with a configured subspace
+    # 0b. kept ImageInstance objects whose id was taken away (in the database, or off the object: instances WITHOUT an id), used again
+    #     on a terminal with a configured subspace, with and without a per-call id_space / id_subspace
     for sp in SPACES:
         for su in rng.sample(near, 2 if quick else 6) + [rng.choice(subs)]:
-            yield kept_history(rng, sp, su, rng.choice([1024, 2, 1]))
+            yield kept_history(rng, sp, su, rng.choice([1024, 2, 1]), near + rng.sample(subs, 3))
     # 1. one request per (space, boundary subspace), both enumerable and large path, several max_ids
     for max_ids in (1024, 1, 10**6):
         for sp in SPACES:
@@ -646,6 +902,14 @@ def run(ctx: Ctx):
                 "space / subspace (pairwise different spaces, disjoint subspaces, some unconfigured) through its own channel - every ordered "
                 "pair of the six channels - created up front or lazily, asked in turns mostly without per-call arguments, properties of one "
                 "changed in between: every id judged against the configuration of the object that was asked; "
+                "the configured id_space as a NATIVE INTEGER (8, 16, 24, 32, 256) through every layer that can carry one (keyword, "
+                "config_overrides, property after ids were handed out, TupimageConfig built in code / told through override_from_dict / "
+                "override / override_from_toml_string, config file with a toml integer), every (layer, integer) pair: a refusal is counted, "
+                "an accepted integer must yield ids of the space it NAMES (IDSpace.from_string of its decimal text); "
+                "kept ImageInstance objects whose id was taken away in the database or off the object (instances WITHOUT an id: built "
+                "with id None / 0, cloned, `.id` reset) passed to upload / upload_and_display with and without a per-call id_space / "
+                "id_subspace (object, text, int) other than the configured ones: refused (counted) or the id is a member of what applies "
+                "to that call; "
                 "mixed histories alternate between 1-3 IDManager objects on the one file. distinct = canonical JSON; non-trivial = "
                 "history with at least one returned id")
     run_corpus(ctx, PROP, check_case)
@@ -654,7 +918,7 @@ def run(ctx: Ctx):
         if ctx.elapsed() > budget or len(ctx.violations) + len(ctx.mismatches) >= 40:
             break
         check_case(ctx, c)
-        ctx.case(c, nontrivial=any(o.get("op") == "get" for o in c["ops"]))
+        ctx.case(c, nontrivial=any(o.get("op") == "get" for o in c["ops"]) or bool(c.get("cfgint")))
         ctx.count("profile:" + c.get("profile", "?") + ("/terminal" if c.get("via") == "terminal" else ""))
         ctx.count(f"max_ids:{c['max_ids']}")
     ctx.assumptions += [
